@@ -7,6 +7,7 @@
 #include <cstdlib>
 #include <cstring>
 #include <new>
+#include <malloc.h>
 #include <condition_variable>
 #include <mutex>
 #include <pthread.h>
@@ -60,7 +61,8 @@ static int g_probe = 0;
 int  vp_probe(int on) { int o = g_probe; g_probe = on; return o; }
 uint64_t vp_flag(const char *) { return 0; }
 void vp_set_flag(const char *, uint64_t) {}
-uint64_t vp_live_heap(void) { return 0; }
+static long g_live_bytes = 0;
+uint64_t vp_live_heap(void) { return static_cast<uint64_t>(__atomic_load_n(&g_live_bytes, __ATOMIC_RELAXED)); }
 uint64_t vp_check_leaks(void) { return 0; }
 void vp_free_now(void *) {}
 int  vp_mutex_held(const void *) { return 1; }
@@ -96,13 +98,15 @@ void * operator new(size_t n) {
     void * p = malloc(n ? n : 1);
     if (!p) throw std::bad_alloc();
     memset(p, poison_byte(), n);
+    __atomic_add_fetch(&g_live_bytes, static_cast<long>(malloc_usable_size(p)), __ATOMIC_RELAXED);
     return p;
 }
+static void vp_free(void * p) { if (p) { __atomic_sub_fetch(&g_live_bytes, static_cast<long>(malloc_usable_size(p)), __ATOMIC_RELAXED); free(p); } }
 void * operator new[](size_t n) { return operator new(n); }
-void operator delete(void * p) noexcept { free(p); }
-void operator delete[](void * p) noexcept { free(p); }
-void operator delete(void * p, size_t) noexcept { free(p); }
-void operator delete[](void * p, size_t) noexcept { free(p); }
+void operator delete(void * p) noexcept { vp_free(p); }
+void operator delete[](void * p) noexcept { vp_free(p); }
+void operator delete(void * p, size_t) noexcept { vp_free(p); }
+void operator delete[](void * p, size_t) noexcept { vp_free(p); }
 
 // std::condition_variable out-of-line members, interposed: real pthread semantics plus probe mode
 // (a wait that would block throws VpBlocked) and notify counting.
